@@ -15,7 +15,14 @@
     teval <texpr>    texpr := T dims dims data | id dims | swap dims dims | cups dims dims
                             | caps dims dims | then e e | tensor e e | dagger e | transpose e
                             | conj e | add e e | zeros dims dims | spider nin nout dims
-      -> ok <dom> <cod> <shape> <data> | err <class>
+                            | thenN e <k> e₁ … e_k | tensorN e <k> e₁ … e_k     (`e.then(e₁, …, e_k)`)
+                            | sum <m|t> <0|1> dims dims <n> e₁ … e_n   (`Sum(terms[, dom, cod])` of
+                                                  class monoidal.Sum / tensor.Sum; 0 = no types given)
+                            | box dims dims | none | int                  (arguments only)
+                            | map <double|square|conj|neg|one|zero> e
+      -> ok <dom> <cod> <shape> <data>
+       | ok sum <m|t> <dom> <cod> <n> (<dom> <cod> <shape> <data>)ⁿ
+       | err <class>
   functors:
     feval <functor> <expr>      the single-pass `Functor.__call__` on the diagram `expr`
     flayers <functor> <expr>    the layer-by-layer composite (reference semantics of C09)
@@ -36,7 +43,11 @@
       efun    := sq | not | conj2 | relu | half | add re im | tab <n> (re im re im)ⁿ re im
 -/
 import Driver.Codec
+<<<<<<< HEAD
 import Model.TensorBubble
+=======
+import Model.TensorNary
+>>>>>>> ws3-c08
 
 namespace DV.TensorCmd
 open DV DV.Codec
@@ -85,6 +96,12 @@ inductive TExpr where
   | dagger (a : TExpr)
   | transpose (a : TExpr)
   | conj (a : TExpr)
+  | thenN (recv : TExpr) (args : List TExpr)
+  | tensorN (recv : TExpr) (args : List TExpr)
+  | sum (kind : SumKind) (typed : Bool) (dom cod : List Int) (terms : List TExpr)
+  | box (dom cod : List Int)
+  | junk (isNone : Bool)
+  | map (fn : String) (a : TExpr)
   deriving Inhabited
 
 partial def texpr : P TExpr := do
@@ -103,6 +120,22 @@ partial def texpr : P TExpr := do
   | "dagger" => do pure (.dagger (← texpr))
   | "transpose" => do pure (.transpose (← texpr))
   | "conj" => do pure (.conj (← texpr))
+  | "thenN" => do let r ← texpr; let a ← many texpr; pure (.thenN r a)
+  | "tensorN" => do let r ← texpr; let a ← many texpr; pure (.tensorN r a)
+  | "sum" => do
+    let k ← tok
+    let kind ← match k with
+      | "m" => pure SumKind.monoidal
+      | "t" => pure SumKind.tensor
+      | _ => throw s!"bad sum kind {k}"
+    let typed ← nat
+    let d ← ints; let c ← ints
+    let ts ← many texpr
+    pure (.sum kind (typed != 0) d c ts)
+  | "box" => do let d ← ints; let c ← ints; pure (.box d c)
+  | "none" => pure (.junk true)
+  | "int" => pure (.junk false)
+  | "map" => do let f ← tok; pure (.map f (← texpr))
   | _ => throw s!"bad texpr head {t}"
 
 /-- `Spider(n_in, n_out, dim)` as a tensor, tensor.py:625-639. -/
@@ -111,23 +144,78 @@ def spiderTensor (nin nout : Nat) (d : List Nat) : Except Err (Tensor G) :=
   else Tensor.mk? (List.replicate nin d).flatten (List.replicate nout d).flatten
     (Tensor.spiderArray nin nout d)
 
-def TExpr.eval : TExpr → Except Err (Tensor G)
+/-- The functions the harness passes to `Tensor.map` (exact on Gaussian integers). -/
+def mapFn : String → Option (G → G)
+  | "double" => some (fun x => x + x)
+  | "square" => some (fun x => x * x)
+  | "conj" => some Conj.conj
+  | "neg" => some (fun x => ⟨-x.re, -x.im⟩)
+  | "one" => some (fun _ => 1)
+  | "zero" => some (fun _ => 0)
+  | _ => none
+
+/-- An operand that must be a Tensor (the unary operations and `+` are only sent on Tensors). -/
+def asTensor : TVal G → Except Err (Tensor G)
+  | .t x => .ok x
+  | _ => .error .fuel      -- never sent: printed as `err fuel`, which no real result equals
+
+partial def TExpr.eval : TExpr → Except Err (TVal G)
   | .lit dom cod data => do
     let d ← Dim.mk? dom
     let c ← Dim.mk? cod
-    Tensor.mk? d c ⟨[data.length], data.toArray⟩
-  | .id d => do pure (Tensor.id (← Dim.mk? d))
-  | .swap l r => do pure (Tensor.swap (← Dim.mk? l) (← Dim.mk? r))
-  | .cups l r => do Tensor.cups (← Dim.mk? l) (← Dim.mk? r)
-  | .caps l r => do Tensor.caps (← Dim.mk? l) (← Dim.mk? r)
-  | .zeros l r => do pure (Tensor.zeros (← Dim.mk? l) (← Dim.mk? r))
-  | .spider i o d => do spiderTensor i o (← Dim.mk? d)
-  | .then a b => do (← a.eval).then (← b.eval)
-  | .tensor a b => do pure ((← a.eval).tensor (← b.eval))
-  | .add a b => do (← a.eval).add (← b.eval)
-  | .dagger a => do pure (← a.eval).dagger
-  | .transpose a => do pure (← a.eval).transpose
-  | .conj a => do pure (← a.eval).conjugate
+    pure (.t (← Tensor.mk? d c ⟨[data.length], data.toArray⟩))
+  | .id d => do pure (.t (Tensor.id (← Dim.mk? d)))
+  | .swap l r => do pure (.t (Tensor.swap (← Dim.mk? l) (← Dim.mk? r)))
+  | .cups l r => do pure (.t (← Tensor.cups (← Dim.mk? l) (← Dim.mk? r)))
+  | .caps l r => do pure (.t (← Tensor.caps (← Dim.mk? l) (← Dim.mk? r)))
+  | .zeros l r => do pure (.t (Tensor.zeros (← Dim.mk? l) (← Dim.mk? r)))
+  | .spider i o d => do pure (.t (← spiderTensor i o (← Dim.mk? d)))
+  | .then a b => do TVal.then1 (← a.eval) (← b.eval)
+  | .tensor a b => do TVal.tensor1 (← a.eval) (← b.eval)
+  | .add a b => do pure (.t (← (← asTensor (← a.eval)).add (← asTensor (← b.eval))))
+  | .dagger a => do pure (.t (← asTensor (← a.eval)).dagger)
+  | .transpose a => do pure (.t (← asTensor (← a.eval)).transpose)
+  | .conj a => do pure (.t (← asTensor (← a.eval)).conjugate)
+  | .thenN r args => do
+    -- Python evaluates the receiver, then the arguments left to right, then calls
+    let x ← r.eval
+    let vs ← args.mapM TExpr.eval
+    TVal.thenArgs x vs
+  | .tensorN r args => do
+    let x ← r.eval
+    let vs ← args.mapM TExpr.eval
+    TVal.tensorArgs x vs
+  | .sum kind typed dom cod terms => do
+    let vs ← terms.mapM TExpr.eval
+    let ts ← vs.mapM asTensor
+    if typed then
+      let d ← Dim.mk? dom
+      let c ← Dim.mk? cod
+      pure (.s (← TSum.mk? kind d c ts))
+    else pure (.s (← TSum.mkInfer? kind ts))
+  | .box dom cod => do pure (.box (← Dim.mk? dom) (← Dim.mk? cod))
+  | .junk b => pure (.junk b)
+  | .map fn a => do
+    match mapFn fn with
+    | none => .error .fuel
+    | some f => pure (.t ((← asTensor (← a.eval)).map f))
+
+def pTermList (ts : List (Tensor G)) : Option String :=
+  if ts.all (fun t => decide t.WF) then
+    some (pList (fun (t : Tensor G) => s!"{pNats t.dom} {pNats t.cod} {pArr t.arr}") ts)
+  else none
+
+def pVResult : Except Err (TVal G) → String
+  | .ok (.t t) => pTensor t
+  | .ok (.s S) =>
+    match pTermList S.terms with
+    | none => "err value"
+    | some terms =>
+      let k := match S.kind with | .monoidal => "m" | .tensor => "t"
+      s!"ok sum {k} {pNats S.dom} {pNats S.cod} {terms}"
+  | .ok (.box _ _) => "ok box"
+  | .ok (.junk _) => "ok junk"
+  | .error e => "err " ++ toString e
 
 /-! functors -/
 
@@ -243,7 +331,7 @@ def handle (cmd : String) (rest : List String) : Option String :=
   | "nd.tensordotaxes" => some <|
       run (do let a ← arr; let b ← arr; let s ← nats; let t ← nats; pure (a, b, s, t)) rest
       fun (a, b, s, t) => pArrResult (a.tensordotAxesOk b s t) (a.tensordotAxes b s t)
-  | "teval" => some <| run texpr rest fun e => pTResult e.eval
+  | "teval" => some <| run texpr rest fun e => pVResult e.eval
   | "feval" => some <| run (do let f ← functor; let e ← expr; pure (f, e)) rest
       fun (f, e) => onDiagram e f.call
   | "flayers" => some <| run (do let f ← functor; let e ← expr; pure (f, e)) rest
